@@ -4,7 +4,8 @@ CONSTANTS Users, Passwords, MaxLives, MsgCounts, Maxes, CancelAts, Methods, Mode
 Lives == UNION {[1..n -> [msgs : MsgCounts, end : {"err", "eof", "srvcancel"}]] : n \in 1..MaxLives}
 AuthInputs == [srvU : Users, srvP : Passwords, cliU : Users, cliP : Passwords]
 RetryInputs == [method : Methods, lives : Lives, max : Maxes, cancelAt : CancelAts]
-PwDef == {"", "pw", "Pw", "p w!"}
+\* passwords that differ by case, contain blanks and punctuation, and pairs that URL-style decoding would identify ("a+b" / "a b", "a%2Bb" / "a+b", "a%20b" / "a b")
+PwDef == {"", "pw", "Pw", "p w!", "a+b", "a b", "a%2Bb", "a%20b"}
 CancelDef == {-1, 0, 1, 2}
 CancelQuick == {-1, 1}
 VARIABLE inp
